@@ -522,6 +522,7 @@ func main() {
 		{"plenccodec/descriptor.go", "Descriptor", "readJSONObjectKV"},
 		{"codec.go", "Plenc", "CodecForTypeRegistry"},
 		{"codec.go", "", "refersToItself"},
+		{"codec.go", "", "isProtoSlice"},
 		{"cmd/plenctag/main.go", "config", "rewrite"},
 		{"cmd/plenctag/main.go", "config", "isExcluded"},
 	}
